@@ -199,3 +199,29 @@ func StalePodsDomain(maxOrd, maxRep, nph int) *Domain {
 	}
 	return d
 }
+
+// OddSlotsPodsDomain: the pods domain with a delete-slots annotation that also lists slots the controller must ignore: a
+// negative one (0: none, 1: -1, 2: -3 and -1) and one far beyond the range (0: none, 1: 50).
+func OddSlotsPodsDomain(maxOrd, maxRep, nph int) *Domain {
+	base := PodsDomain(maxOrd, maxRep, nph, false)
+	nb := len(base.Dims)
+	d := &Domain{Name: "oddslots-" + base.Name, Dims: append(append([]int{}, base.Dims...), 3, 2)}
+	d.Make = func(ix []int) *Scenario {
+		sc := base.Make(ix[:nb])
+		sc.Dom = ix
+		sl := []int{}
+		switch ix[nb] {
+		case 1:
+			sl = append(sl, -1)
+		case 2:
+			sl = append(sl, -3, -1)
+		}
+		sl = append(sl, maskToSlots(ix[1], maxOrd+1)...)
+		if ix[nb+1] == 1 {
+			sl = append(sl, 50)
+		}
+		sc.Set.SlotsAnn = slotsAnn(sl)
+		return sc
+	}
+	return d
+}
